@@ -104,7 +104,24 @@ Inductive ckind :=
 | KStdFunR      (* std::function<std::string()>, temporary *)
 | KStdFunCStr   (* std::function<const char*()>, variable *)
 | KConstObj     (* const function object, variable *)
-| KLambdaVar.   (* lambda stored in a variable, streamed as an lvalue *)
+| KLambdaVar    (* lambda stored in a variable, streamed as an lvalue *)
+(* callables whose call operator is NOT const: invocable in the value category in which they are streamed (T is deduced
+   by value, the operator calls its own non-const copy) *)
+| KMutableLambda   (* mutable capturing lambda, temporary *)
+| KNonConstTemp    (* function object with a non-const operator(), temporary *)
+| KNonConstVar     (* the same, a non-const variable streamed as an lvalue *)
+| KNonConstConstVar (* the same, a const variable (the by-value copy inside operator<< is not const) *)
+| KBoolTemp        (* non-const operator() AND a non-explicit operator bool (so it could also be inserted as a value), temporary *)
+| KBoolVar         (* the same, a variable *)
+| KInsertableVar.  (* non-const operator() AND its own operator<<(std::ostream&, …), a variable *)
+
+(* streamable objects other than std::string and numbers; `s` is what their operator<<(std::ostream&, …) writes.
+   The model treats them like a string item: operator<<(stream, const T& t) hands the object itself to the std::ostream. *)
+Inductive okind :=
+| OBaseRef      (* an object of a derived class streamed through a reference to its (copyable, non-abstract) base whose
+                   operator<< calls a virtual function: s is what the DERIVED class writes *)
+| ONonCopyable  (* a class with a deleted copy constructor *)
+| OCopyMarked.  (* a class whose copies would render differently from the original *)
 
 (* ways to make the std::stringstream of a statement fail (none of them writes anything).  After it every formatted
    insertion of the std::ostream is a no-op (its sentry fails), str() keeps the text written before. *)
@@ -117,6 +134,7 @@ Inductive item :=
 | IStr (s : str)                  (* s.sstr() << std::string *)
 | INum (z : Z)                    (* s.sstr() << long long *)
 | ICall (k : ckind) (id : nat) (ret : str)    (* a callable of shape k; `id` names it, `ret` is what it returns *)
+| IObj (k : okind) (s : str)                  (* s.sstr() << object *)
 | IFail (k : fkind).                          (* an insertion that puts the statement's std::stringstream into fail()/bad() *)
 
 (* decimal rendering of an integer by std::ostream (modelled, tied by correspondence only) *)
@@ -142,7 +160,7 @@ Definition dec_of_Z (z : Z) : str :=
 
 (* the text an item contributes to the stringstream *)
 Definition item_text (it : item) : str :=
-  match it with IStr s => s | INum z => dec_of_Z z | ICall _ _ ret => ret | IFail _ => [] end.
+  match it with IStr s => s | INum z => dec_of_Z z | ICall _ _ ret => ret | IObj _ s => s | IFail _ => [] end.
 Definition is_fail (it : item) : bool := match it with IFail _ => true | _ => false end.
 
 (* ---------------------------------------------------------------- observable events *)
